@@ -1,7 +1,8 @@
-Require Import DS.Base DS.Parser DS.Expansion DS.ExpansionSpec.
+Require Import DS.Base DS.Parser DS.ParserIx DS.Expansion DS.ExpansionSpec DS.ExpansionIx.
 Require Import ExtrOcamlBasic.
 Extraction Language OCaml.
 Extraction "../ocaml/gen/c02_model.ml" N.of_nat N.to_nat Z.of_N Z.to_N
   env_of_list expand_by_wrapper bind_args bind_command_arguments
   render_tmpl render_arg denote_tmpl denote_args wf_arg wf_piece_literal known_arg
-  known_spread_value known_spread_quote known_esc_tmpl words reparse_arguments.
+  known_spread_value known_spread_quote known_esc_tmpl words reparse_arguments
+  expand_by_wrapper_ix bind_args_ix bind_command_arguments_ix.
